@@ -599,7 +599,12 @@ class ASim:
             t = self.add_target(o["s"], o["a"])
             o["strict"] = True
             if t is not None and self.is_adapter(t):
-                # Adapter.Add answers "the eternal interval is new in the written temporal store"
+                # Adapter.Add answers "the eternal interval is new in the written temporal store", not "the atom was
+                # absent" (known finding N95). Trigger avoidance of N95: the boolean is NOT judged exactly when the
+                # atom is already in the adapter's view without an eternal interval in the written store (visible
+                # through non-eternal intervals, or through the base of a teeing temporal store only); everywhere
+                # else - atom outside the view, or already eternal in the written store - it is judged. The effect
+                # of the Add (the eternal pair) is applied either way. Probe: probes(), cases N95 / N95t.
                 ts = self.stores[t]["ts"]
                 o["strict"] = (o["a"] not in self.view(t)) or ((o["a"], None, None) in self.own[ts])
         elif k == "count":
@@ -987,24 +992,60 @@ def probe_cases():
                "stores": [{"k": "indexed"}],
                "ops": [{"s": 0, "op": "add", "a": 0}, {"s": 0, "op": "remove", "a": 0},
                        {"s": 0, "op": "preds"}]},     # not marked ghost: judged by the exact set verdict
+        # adapter-format cases (key "tstores"): judged by Run.C06.judge_a with EVERY Add marked strict
+        # N95: p(/a) is written directly with [0,10]; the unpinned adapter sees it; Add through the adapter must say false
+        "N95": {"consts": [a], "atoms": [{"sym": 0, "args": [0]}],
+                "tstores": [{"k": "tstore"}], "stores": [{"k": "tadapter", "ts": 0, "at": None}],
+                "ops": [{"op": "tadd", "ts": 0, "a": 0, "lo": 0, "hi": 10}, {"s": 0, "op": "contains", "a": 0},
+                        {"s": 0, "op": "add", "a": 0}, {"s": 0, "op": "add", "a": 0}]},
+        # the same through a TeeingTemporalStore whose base holds p(/a) eternally
+        "N95t": {"consts": [a], "atoms": [{"sym": 0, "args": [0]}],
+                 "tstores": [{"k": "tstore"}, {"k": "ttee", "base": 0}],
+                 "stores": [{"k": "tadapter", "ts": 1, "at": None}],
+                 "ops": [{"op": "tadd", "ts": 0, "a": 0, "lo": None, "hi": None}, {"s": 0, "op": "contains", "a": 0},
+                         {"s": 0, "op": "add", "a": 0}, {"s": 0, "op": "add", "a": 0}]},
     }
 
 
 def probes(ck):
     known = {k["id"] for k in known_for("C06")}
     pc = probe_cases()
-    names = list(pc)
+    names = [n for n in pc if "tstores" not in pc[n]]
     outs = ck.run_go("c06", [go_payload(pc[n]) for n in names])
     codes = ck.run_coq("C06", "judge", [cq_case(pc[n], o["out"]) for n, o in zip(names, outs)], tag="probe")
+    # adapter-format probes (N95): the main stream does NOT judge the boolean of Adapter.Add when the atom is in the
+    # view without an eternal interval in the written store (ASim.mark, strict=False - the trigger avoidance of N95);
+    # here every Add is judged (strict=True), so judge_a answers 1000+k at the Add that reports a visible atom as new
+    # and 0 once Add answers for the atom
+    anames = [n for n in pc if "tstores" in pc[n]]
+    for n in anames:
+        mark_adapter_case(pc[n])
+        for o in pc[n]["ops"]:
+            if o["op"] == "add":
+                o["strict"] = True
+    aouts = ck.run_go("c06", [a_go_payload(pc[n]) for n in anames])
+    codes += ck.run_coq("C06", "judge_a", [a_cq_case(pc[n], o["out"]["res"]) for n, o in zip(anames, aouts)],
+                        tag="probe_a")
+    names += anames
     what = {"F8": "F8 simple store: Add(p([])) after Add(p(0)) returns false and p([]) is never stored (equal Atom.Hash())",
             "N7": "N7 TeeingStore.Merge copies an atom the base already holds: GetFacts yields it twice",
             "N7m": "N7 MergedStore.Merge copies an atom a read store already holds: GetFacts yields it twice",
-            "N8": "N8 indexed store still lists a predicate whose only fact was removed"}
+            "N8": "N8 indexed store still lists a predicate whose only fact was removed",
+            "N95": "N95 TemporalFactStoreAdapter.Add(p(/a)) answers true although Contains(p(/a)) is true (p(/a) holds "
+                   "during [0,10]): Add reports the novelty of the eternal interval, not of the atom",
+            "N95t": "N95 TemporalFactStoreAdapter.Add over a TeeingTemporalStore answers true for an atom its base "
+                    "holds eternally (Contains true)"}
     res = {}
     for n, code in zip(names, codes):
         res[n] = code
-        fid = n.rstrip("m")
-        if code >= 1000:
+        fid = n.rstrip("mt")
+        if n in anames and code not in (0, 1003):
+            # N95 is op 3 only (the Add of a visible atom); anything else the set machine rejects here is not N95
+            ck.violation({"property": "C06", "kind": "adapter probe: the set machine rejects another operation than "
+                          "the Add of the visible atom (9999 = malformed case)", "probe": n, "adapter_case": True,
+                          "case": a_go_payload(pc[n]), "impl_outputs": aouts[anames.index(n)].get("out", {}).get("res"),
+                          "judge_a": code}, "" if 1000 < code < 9999 else "no-failing-input-found")
+        elif code >= 1000:
             if fid in known:
                 ck.known(what[n] + " (set machine rejects op %d)" % (code - 1000))
             else:
@@ -1232,7 +1273,7 @@ def run(ck):
         "TeeingTemporalStore that is also written directly with (atom, interval) pairs; judged by the Coq set machine only "
         "(Run.C06.judge_a: view = atoms with an interval / with an interval containing the instant); no Remove on the adapter; "
         "the boolean of Adapter.Add is judged only when the atom is outside the view or already eternal in the written store "
-        "(it reports the novelty of the eternal interval), the count only while every atom has one interval and all are in "
+        "(it reports the novelty of the eternal interval: finding N95, replayed by a probe), the count only while every atom has one interval and all are in "
         "view (it counts pairs), the listing as a superset when a listed predicate has no atom in view; "
         "no Merge between views of one temporal store"])
 
@@ -1289,7 +1330,8 @@ META = {
             "of the interval tree).",
     "note": "Trusted: Coq kernel + vm_compute; hand-written models tied to the code by differential replay only (sampled, "
             "exhaustive on a small universe); known findings F8 (hash-equal atoms), N7 (wrapper Merge duplicates), N8 "
-            "(emptied predicates stay listed) are avoided by the main stream and replayed by probes; fixes F10, N6 applied. "
+            "(emptied predicates stay listed), N95 (Adapter.Add answers for the eternal interval, not for the atom) are avoided "
+            "by the main stream and replayed by probes; fixes F10, N6 applied. "
             "Adapter configurations: set-machine verdict only; the boolean of Adapter.Add and the count are judged only where "
             "the adapter's documented meaning (novelty of the eternal interval, number of pairs) coincides with the set's.",
 }
